@@ -15,7 +15,7 @@ for m in sorted(glob.glob("/verif/seeded/*/meta.json")):
     if only and name not in only:
         continue
     base = d.get("applies_to") or "HEAD"
-    wt = "/tmp/refresh-wt"
+    wt = "/tmp/refresh-wt" + os.environ.get("REFRESH_WT_SUFFIX", "-%d" % os.getpid())
     subprocess.run(["git", "-C", "/repo", "worktree", "remove", "--force", wt], capture_output=True)
     subprocess.run(["git", "-C", "/repo", "worktree", "add", "--detach", wt, base], capture_output=True, check=True)
     try:
